@@ -17,7 +17,7 @@ PROPS = {
     "C01": dict(mc_q=["MC_guards_q", "MC_serial"], mc_t=["MC_guards", "MC_peer", "MC_serial", "MC_plan_q"], wit=[("MC_serial", "W_ReenterByLoad"), ("MC_guards_q", "W_Deactivated")]),
     "C02": dict(mc_q=["MC_guards_q"], mc_t=["MC_guards", "MC_peer", "MC_plan_q"], wit=[("MC_guards_q", "W_LaterRequestReplaces"), ("MC_guards_q", "W_ReenterApplied")]),
     "C03": dict(mc_q=["MC_guards_q"], mc_t=["MC_guards", "MC_peer"], wit=[("MC_guards_q", "W_VetoAfterRedirect"), ("MC_guards_q", "W_ExitGuardCancels")]),
-    "C04": dict(mc_q=["MC_guards_q", "MC_live"], mc_t=["MC_guards", "MC_peer", "MC_live"], wit=[("MC_guards_q", "W_LimitLeftover")]),
+    "C04": dict(mc_q=["MC_guards_q", "MC_live", "MC_live_plan"], mc_t=["MC_guards", "MC_peer", "MC_live", "MC_live_plan"], wit=[("MC_guards_q", "W_LimitLeftover")]),
     "C05": dict(mc_q=["MC_guards_q"], mc_t=["MC_guards", "MC_plan_q"], wit=[("MC_guards_q", "W_RequestInPhase")]),
     "C06": dict(mc_q=["MC_guards_q", "MC_payload_q"], mc_t=["MC_guards", "MC_payload"], wit=[("MC_guards_q", "W_GuardSeesAccepted")]),
     "C07": dict(mc_q=["MC_payload_q"], mc_t=["MC_payload"], wit=[("MC_payload_q", "W_TaskPayloadPending")]),
